@@ -58,19 +58,32 @@ class Rule:
             if "examples" not in doc:
                 doc["examples"] = []
 
+            descriptions = doc["description"]
+            examples = doc["examples"]
+            if not isinstance(descriptions, list):
+                raise MalformedRuleSpec(
+                    f"Rule description must be given as a list of strings, but found: "
+                    f"{descriptions!r}."
+                )
+            if not isinstance(examples, list):
+                raise MalformedRuleSpec(
+                    f"Rule examples must be given as a list of strings, but found: "
+                    f"{examples!r}."
+                )
+
             # strip final new lines:
-            for idx, desc_i in enumerate(doc["description"]):
+            for idx, desc_i in enumerate(descriptions):
                 if not isinstance(desc_i, str):
                     raise MalformedRuleSpec(
                         f"Rule description must be given as strings, but found: {desc_i!r}."
                     )
-                doc["description"][idx] = desc_i.strip()
-            for idx, ex_i in enumerate(doc["examples"]):
+                descriptions[idx] = desc_i.strip()
+            for idx, ex_i in enumerate(examples):
                 if not isinstance(ex_i, str):
                     raise MalformedRuleSpec(
                         f"Rule examples must be given as strings, but found: {ex_i!r}."
                     )
-                doc["examples"][idx] = ex_i.strip()
+                examples[idx] = ex_i.strip()
 
         cast = copy.deepcopy(spec.get("cast"))
         if cast is not None and not isinstance(cast, dict):
